@@ -16,6 +16,8 @@ structure EnvOK (E : Env) : Prop where
   castTyped : ∀ t v w, E.cast t v = .ok w → Val.exactTy t w = true
   /-- what `adapt` returns offers the protocol. -/
   adaptProvides : ∀ v c r, E.adapt v c = .ok (some r) → Val.isInst c r = true ∨ E.provides r c = true
+  /-- `some r` encodes "adapt returned something other than None". -/
+  adaptNotNone : ∀ v c r, E.adapt v c = .ok (some r) → r.isNone = false
   fnRange : ∀ f v w, E.fn f v = .ok w → E.fnRange f w = true
   /-- `asarray(value, dtype)` has dtype `dtype`. -/
   asarrayTyped : ∀ v t d s, E.asarray v (some t) = .ok (d, s) → d = t
@@ -158,9 +160,22 @@ theorem fast_map_ok (keys : List Val) (v w : Val) (h : fastAlone E (.map keys) v
     | some i => simp [hs] at h; exact ⟨⟨i, rfl⟩, h.symm⟩
 
 theorem fast_check_ok (an : Bool) (ty : Ty) (v w : Val)
-    (h : fastAlone E (.typeChk an ty) v = .ok w ∨ fastAlone E (.instChk an ty) v = .ok w) :
-    ((an = true ∧ v.isNone = true) ∨ Val.isInst ty v = true) ∧ w = v := by
-  rcases h with h | h <;> simp only [fastAlone] at h <;> split at h <;> simp_all
+    (h : (ty.isTypeType = true ∧ fastAlone E (.typeChk an ty) v = .ok w) ∨
+         fastAlone E (.instChk an ty) v = .ok w) :
+    ((an = true ∧ v.isNone = true) ∨ (v.isNone = false ∧ Val.isInst ty v = true)) ∧ w = v := by
+  rcases h with ⟨ht, h⟩ | h
+  · simp only [fastAlone] at h
+    split at h
+    · rename_i hc; cases h
+      refine ⟨?_, rfl⟩
+      by_cases hn : v.isNone = true
+      · have := Val.eq_none_of_isNone v hn; subst this
+        have := isInst_typeType_none ty ht
+        simp_all
+      · simp_all
+    · cases h
+  · simp only [fastAlone] at h
+    split at h <;> simp_all
 
 theorem isInst_bool_exact (v : Val) (h : Val.isInst .bool v = true) : Val.exactTy .bool v = true := by
   rcases v with a | ⟨sub, vs⟩ | vs
@@ -487,9 +502,9 @@ theorem sound_atomic_ctrait (hE : EnvOK E) (t : TraitType) (hs : t.subs = none) 
     obtain ⟨h1, rfl⟩ := fast_coerce_nil_ok E _ v w h
     exact ⟨h1, Or.inl ⟨h1, rfl⟩⟩
   case instanceH cls an =>
-    have h' : fastAlone E (.typeChk an cls) v = .ok w ∨ fastAlone E (.instChk an cls) v = .ok w := by
+    have h' : (cls.isTypeType = true ∧ fastAlone E (.typeChk an cls) v = .ok w) ∨ fastAlone E (.instChk an cls) v = .ok w := by
       by_cases ht : cls.isTypeType = true <;> simp [ht] at h
-      · exact Or.inl h
+      · exact Or.inl ⟨ht, h⟩
       · exact Or.inr h
     obtain ⟨h1, rfl⟩ := fast_check_ok E an cls v w h'
     refine ⟨?_, rfl⟩
@@ -497,9 +512,9 @@ theorem sound_atomic_ctrait (hE : EnvOK E) (t : TraitType) (hs : t.subs = none) 
   case «instance» cls an mode dflt =>
     by_cases hm : mode = 0
     · subst hm
-      have h' : fastAlone E (.typeChk an cls) v = .ok w ∨ fastAlone E (.instChk an cls) v = .ok w := by
+      have h' : (cls.isTypeType = true ∧ fastAlone E (.typeChk an cls) v = .ok w) ∨ fastAlone E (.instChk an cls) v = .ok w := by
         by_cases ht : cls.isTypeType = true <;> simp [ht] at h
-        · exact Or.inl h
+        · exact Or.inl ⟨ht, h⟩
         · exact Or.inr h
       obtain ⟨h1, rfl⟩ := fast_check_ok E an cls v w h'
       refine ⟨?_, Or.inl rfl⟩
@@ -520,11 +535,12 @@ theorem sound_atomic_ctrait (hE : EnvOK E) (t : TraitType) (hs : t.subs = none) 
             simp [had] at h; subst h
             have hm1 : mode ≥ 1 := by omega
             refine ⟨?_, Or.inr (Or.inl ⟨hm1, had⟩)⟩
+            have hnn := hE.adaptNotNone _ _ _ had
             rcases hE.adaptProvides _ _ _ had with hi | hp <;> simp_all [inDomain]
           | none =>
             simp only [had] at h
             by_cases hi : Val.isInst cls v = true
-            · simp [hi] at h; subst h; exact ⟨by simp [inDomain, hi], Or.inl rfl⟩
+            · simp [hi] at h; subst h; exact ⟨by simp [inDomain, hi, hn], Or.inl rfl⟩
             · simp only [hi] at h
               by_cases hm1 : mode = 1
               · simp [hm1] at h
